@@ -8,6 +8,7 @@ import os
 
 from .geom import Geo, dec, enc, well_id
 
+ROWS_ = "ABCDEFGHIJKLMNOPQRSTUVWXYZ"
 LAB_NAMES = ["src", "dst", "plate1", "T", "reservoir", "A", "MTP-96", "x y", "stocks", "dil", "Waste_2", "b",
              "µ-plate", "a.b", "96er", "N" * 32, "first", "plate ", " lead", "tab\tname"]
 COMPONENTS = ["water", "glucose", "NaCl", "buffer", "x", "dye"]
@@ -132,11 +133,25 @@ def gen_labware(rng, kind, name, regime, size_class, idx, opts):
     # exactly representable there, so the configuration itself is unchanged)
     import struct
     flat = [v for row in ini for v in (row if isinstance(row, list) else [row])]
-    if rng.random() < 0.12:
-        if all(float(v).is_integer() for v in flat) and rng.random() < 0.5:
-            spec["initial_dtype"] = "int64"
-        elif all(struct.unpack("f", struct.pack("f", v))[0] == v for v in flat):
-            spec["initial_dtype"] = "float32"
+    r = rng.random()
+    if r < 0.06:
+        # an integer-typed array (np.full(shape, 99), np.zeros(..., dtype=int)): whole-number volumes
+        def whole(v):
+            w = float(math.floor(v))
+            return w
+        if kind == "plate":
+            ini = [[whole(v) for v in row] for row in ini]
+        else:
+            ini = [whole(v) for v in ini]
+        spec["initial"] = enc(ini)
+        spec["initial_dtype"] = "int64"
+        if spec.get("names") and kind == "plate":
+            spec["names"] = {k: v for k, v in spec["names"].items()
+                             if v is None or ini[ROWS_.index(k[0])][int(k[1:]) - 1] > 0}
+        elif spec.get("names") and kind == "trough":
+            spec["names"] = [nm if ini[c] > 0 else None for c, nm in enumerate(spec["names"])]
+    elif r < 0.12 and all(struct.unpack("f", struct.pack("f", v))[0] == v for v in flat):
+        spec["initial_dtype"] = "float32"
     return spec
 
 
